@@ -16,6 +16,7 @@ EXPLANATION = (
     " When decode_number's decision list is not of the spelling read by HELP-DEC (sign extension by xor, nested range tests, a helper for the tolerance ...), the residual is evaluated (terms, not code) at every raw value near a place where the statement changes its answer -- 0, sign boundary, not-available code, all-ones, the range ends and the float tolerance band -- at all raw values of fields up to 12 bits and at 257 spread values, at two bit offsets with other payload bits set; a disagreement is reported with the raw value. DISP: a dispatcher whose guards cannot be tabulated is run by the abstract interpreter on one payload per definition, every single-field deviation and every pair of definitions merged."
     " Fifth round: dispatch differences are keyed by (definition selected by the database, definition served); a helper reading that ends in code the partial evaluator did not follow (another module's class, a module-level table) gives no verdict."
     ' Seventh round: [DEC-REACH] the decode path interpreted on an all-zero payload reaches the generated decoder with the integer 0, and on addressed and broadcast PGNs hands PGN, priority, source and destination on unchanged; [HELP-STR] decode_bit_lookup and decode_string_lau are also interpreted on concrete payloads (a sparse table; a text with its length byte) so that a loop bound or a skip taken from the wrong quantity has a witness.'
+    ' Eighth round: a generated decoder that goes on past the field type at which the reference stops (support for that type added later) gives no verdict for the fields beyond (was: violation).'
 )
 ASSUMPTIONS = ["CPython ast parser", "canboat.json is the oracle", "sym.py transfer functions (substitution, int/float constant folding)",
                "dataclass positional binding follows annotated-field order of message.py"]
